@@ -1,4 +1,5 @@
 import PcfgVerif.Model.Sampler
+import PcfgVerif.Generated.CliOptions
 import PcfgVerif.Lemmas.ExpandLemmas
 /-!
 # C16 — honeywords are drawn from the grammar with the grammar's probabilities
@@ -259,6 +260,14 @@ theorem C16_uniform_count (ws : List Nat) (j : Nat) (hj : j < ws.length) :
 
 /-- non-vacuity / illustration: counts 1, 2, 1 → of the four draws 1/4 … 4/4 exactly two select index 1 -/
 example : ((List.range 4).filter (fun k : Nat => pick intOps [1, 2, 1] ((k : Int) + 1) == some 1)).length = 2 := by
+  decide
+
+/-- the ruleset the words are drawn from is the one named on the command line: the option parser assigns `args.rule` unchanged
+(regenerated from the source; the only other assignment is `load_save` restoring a saved session) -/
+theorem C16_rule_name_is_the_typed_name :
+    Generated.CliOptions.guesserAssign.filter (fun a => a.2.1 == "rule_name") =
+      [("parse_command_line", "rule_name", "args.rule"),
+       ("load_save", "rule_name", "save_config.get('rule_info', 'rule_name')")] := by
   decide
 
 end Pcfg.C16
